@@ -257,7 +257,6 @@ def reach_tags():
 
 TAGS = {
     # tag: (file, distinctive source text on the executed line)
-    "cand.fixed_point_retained_set": ("attractor_candidates.py", "return [retained_set | node_space]"),
     "cand.regenerate_retained_set": ("attractor_candidates.py", "retained_set[var] = 0"),
     "cand.skip_intersection": ("attractor_candidates.py", "child_motifs_reduced.append(reduced_subspace)"),
     "cand.empty_nfvs_nonminimal": ("attractor_candidates.py", "return []"),
